@@ -443,7 +443,7 @@ def correspond(ctx):
             samples.append({"stream": st.name, "replay": st.replay, "first_ops": [" ".join(w) for w in O[:3]]})
 
     # ---- untraced volume runs (property oracle only, in C)
-    vol = ctx.scale([(1, 120000)], [(1, 4000000)] * 6 + [(0, 1500000)] * 2)
+    vol = ctx.scale([(1, 120000)], [(1, 6000000)] * 8 + [(0, 2000000)] * 4 + [(3, 150000)] * 2)
     vol_ops = 0
     import concurrent.futures
 
@@ -477,7 +477,7 @@ def correspond(ctx):
             cov["sanitizer"] = "build failed"
         else:
             senv = {"ASAN_OPTIONS": "detect_leaks=0:abort_on_error=0", "UBSAN_OPTIONS": "print_stacktrace=1:halt_on_error=1"}
-            sjobs = ["\n".join(tops) + "\nF\n"] + ["G %d %d %d %d\nF\n" % (rng.randrange(1, 1 << 40), n, 1000, p) for p, n in ((1, 300000), (0, 150000), (3, 30000), (2, 5000))]
+            sjobs = ["\n".join(tops) + "\nF\n"] + ["G %d %d %d %d\nF\n" % (rng.randrange(1, 1 << 40), n, 1000, p) for p, n in ((1, 600000), (0, 300000), (3, 50000), (2, 8000))]
             sops = 0
             for cmds in sjobs:
                 rc, out, e = run_harness(sexe, cmds, trace=False, timeout=3000, env=senv)
